@@ -163,6 +163,20 @@ impl EventGen for ReuseElement {
             context.pop_element();
         })?;
 
+        // (a place which is not in user units - x="1cm", x="10%" - can't be worked on: it
+        // is the instance's as it is written, where the instance can have one)
+        if matches!(
+            instance_element.name.as_str(),
+            "rect" | "image" | "use" | "svg" | "foreignObject" | "text"
+        ) {
+            for name in ["x", "y"] {
+                if let Some(value) = reuse_element.get_attr(name) {
+                    if crate::types::strp(&value).is_err() {
+                        instance_element.set_attr(name, &value);
+                    }
+                }
+            }
+        }
         let mut pos = Position::from(&reuse_element);
         // a reuse element which doesn't place its instance leaves the target's own
         // geometry (anchors such as cx / cy, dw / dh, end points) as written
